@@ -75,3 +75,20 @@ Definition py_map_o {A B} (f : A -> outcome B) (l : list A) : outcome (list B) :
 
 (* hash((a, b)): represented by the tuple that is hashed *)
 Definition py_hash_pair (k : Z * Z) : Z * Z := k.
+
+(* ---- the compiled regular expressions (RE_MAC_FORMATS / RE_EUI64_FORMATS = Model/Eui.v mac_pats / eui64_pats) ----
+   regexp.findall(text) for an anchored pattern: [] or [the groups of the only match] = None | Some groups (Eui.match_pat);
+   the groups of a match are a tuple of text, or -- for a pattern with exactly one group -- that group's text itself *)
+Definition py_findall (p : Eui.pat) (s : string) : option (list string) := Eui.match_pat p (chars s).
+Definition py_matches_len (m : option (list string)) : Z := match m with Some _ => 1 | None => 0 end.
+Definition py_found (m : option (list string)) : bool := match m with Some _ => true | None => false end.
+Definition py_match0 (m : option (list string)) : outcome (list string) :=
+  match m with Some g => Ok g | None => Raise IndexError end.
+Definition py_is_tuple (g : list string) : bool := negb (Nat.eqb (List.length g) 1).
+Definition py_group_str (g : list string) : string := match g with [s] => s | _ => EmptyString end.
+(* truth of `None or groups`: a tuple of groups is never empty; a single group is true unless it is '' *)
+Definition py_optgroups_truthy (og : option (list string)) : bool :=
+  match og with
+  | None => false
+  | Some g => if py_is_tuple g then true else negb (String.eqb (py_group_str g) EmptyString)
+  end.
